@@ -97,6 +97,9 @@ def run(ctx):
     ctx.rule("R2", "direction table: STREAM/RESET_STREAM/STREAM_DATA_BLOCKED on a local unidirectional stream and "
                    "STOP_SENDING/MAX_STREAM_DATA on a peer unidirectional stream give STREAM_STATE_ERROR; peer ids pass try_accept_sid")
     ctx.rule("R3", "final-size checks construct FINAL_SIZE_ERROR on conditional paths (5 sites)")
+    ctx.rule("R5", "final-size comparisons relate the right quantities, with the right strictness: a FIN below data already received, "
+                   "data beyond the final size, a FIN that changes the final size, a reset below the received extent, a reset "
+                   "that changes the final size")
     ctx.rule("R4", "implicit opening: every id in NeedCreate is inserted and offered to the listener exactly once; the "
                    "cursor advances to sid.next and NeedCreate starts at the previous cursor")
 
@@ -202,6 +205,45 @@ def run(ctx):
             ctx.ob("R3", "%s|final-size check #%d is evaluated before every successful return" % (b.short, k + 1), ok, b.where(line),
                    "condition chain of the check starts at bb%s; Ok(..) built at %s; dominated: %s — a fast path returning Ok "
                    "before the check accepts a frame that contradicts the stream's final size" % (root, oks, ok))
+
+    # ---------------------------------------------------------------- R5
+    def _cls(role):
+        if role.startswith("sum(") and "StreamFrame::offset" in role and ("::len" in role):
+            return "END"            # offset + length of the frame's data
+        if role == "field:SizeKnown.final_size":
+            return "FINAL"
+        if role in ("call:RecvBuf::largest_offset", "field:Recv.largest"):
+            return "RCVD_EXTENT"
+        if role == "call:ResetStreamFrame::final_size":
+            return "RESET_FINAL"
+        return role
+    want = {
+        "qrecovery::recv::recver::Recv::determin_size": ["END Lt RCVD_EXTENT"],
+        "qrecovery::recv::recver::SizeKnown::recv": ["END Gt FINAL", "END Ne FINAL"],
+        "qrecovery::recv::recver::Recv::recv_reset": ["RCVD_EXTENT Gt RESET_FINAL"],
+        "qrecovery::recv::recver::SizeKnown::recv_reset": ["FINAL Ne RESET_FINAL"],
+    }
+    for name, exp in want.items():
+        b = ctx.anchor("R5", name)
+        if not b:
+            continue
+        got = []
+        for (i, j, rv, line) in agg_sites(b, r"error::ErrorKind$", "FinalSize"):
+            g = guard_cmp(b, i)
+            if g is None:
+                got.append("<no comparison recognised>")
+                continue
+            (sw, op, x, y) = g
+            cx = "|".join(sorted(_cls(r) for r in value_roles(b, x)))
+            cy = "|".join(sorted(_cls(r) for r in value_roles(b, y)))
+            if cx > cy:
+                cx, cy, op = cy, cx, {"Gt": "Lt", "Ge": "Le", "Lt": "Gt", "Le": "Ge", "Eq": "Eq", "Ne": "Ne"}[op]
+            got.append("%s %s %s" % (cx, op, cy))
+        for e in exp:
+            ctx.ob("R5", "%s|FINAL_SIZE_ERROR exactly when %s" % (b.short, e), e in got, b.where(),
+                   "comparisons guarding the FinalSize error (relation that holds when the error is built): %s; expected %s — a "
+                   "comparison of other quantities, or of other strictness, accepts a contradicting final size or rejects a "
+                   "consistent one" % (got, e))
 
     # ---------------------------------------------------------------- R4
     for name, inserts in ((DS + "::try_accept_bi_sid", [r"ArcInputGuard::insert$", r"ArcOutputGuard::insert$", r"ListenerGuard::push_bi_stream$"]),
